@@ -73,6 +73,8 @@ fn case_of(s: &str) -> Json {
 }
 
 struct Probe<'a> {
+    /// dev-profile batches cost ~30x per deal: no complete drains there
+    light: bool,
     which: Which,
     report: &'a mut Report,
     stats: &'a mut ProbeStats,
@@ -225,14 +227,14 @@ impl<'a> Probe<'a> {
         let whole = ((0u8, 1u8), (48u8, 49u8));
         let scattered = [((0u8, 1u8), (0u8, 4u8)), ((9, 20), (9, 23)), ((22, 30), (22, 33)), ((37, 40), (37, 43)), ((46, 47), (48, 49))];
         let mut setups: Vec<(Vec<HandRange>, ((u8, u8), (u8, u8)))> = Vec::new();
-        if n <= 12 {
+        if n <= 12 && !self.light {
             setups.push((vec![range.clone()], whole));
         } else {
             for s in scattered {
                 setups.push((vec![range.clone()], s));
             }
         }
-        if n <= 6 {
+        if n <= 6 && !self.light {
             setups.push((vec![range.clone(), range.clone()], whole));
         } else if n <= 80 {
             setups.push((vec![range.clone(), range.clone()], scattered[0]));
@@ -359,6 +361,8 @@ enum Job {
     CardPairs,
     Long { index: u64 },
     Named,
+    /// well-formed tokens, bare and with weights, as tokens and inside lists
+    ValidTokens { lo: usize, hi: usize },
 }
 
 const NAMED: [&str; 40] = [
@@ -366,83 +370,19 @@ const NAMED: [&str; 40] = [
     "AsAs", "AsAs:0.5", "AA:1.9", "AA:1.0000001", "AA:2", "AA:1.", "AA:.5", "AA:-0", "AA:1e5", "AA:NaN", "AA:inf", "AA:0x1", ":", ",", ",,,", "AA,", ",AA", "AA,,KK", "é", "Aé",
 ];
 
-pub fn run(ctx: &Ctx, which: Which) -> Report {
-    let thorough = ctx.tier == Tier::Thorough;
-    let shapes = shape_strings();
-    let literals = weight_literals();
-    let tokens = all_well_formed_tokens();
-    let mut jobs: Vec<Job> = vec![Job::Named, Job::CardPairs];
-    match which {
-        Which::C09 => {
-            let max_len = if thorough { 4 } else { 3 };
-            for len in 0..=max_len {
-                let total = 30u64.pow(len as u32);
-                let step = 1500;
-                let mut lo = 0;
-                while lo < total {
-                    jobs.push(Job::Short { len, lo, hi: (lo + step).min(total) });
-                    lo += step;
-                }
-            }
-            let mut lo = 0;
-            while lo < shapes.len() {
-                jobs.push(Job::Shapes { lo, hi: (lo + 600).min(shapes.len()), weights: thorough });
-                lo += 600;
-            }
-            let mut lo = 0;
-            while lo < tokens.len() {
-                jobs.push(Job::Multibyte { lo, hi: (lo + 40).min(tokens.len()) });
-                lo += 40;
-            }
-            for i in 0..ctx.tier.pick(60, 600) {
-                jobs.push(Job::Random { n: 200, index: i as u64 });
-            }
-            for i in 0..ctx.tier.pick(40, 400) {
-                jobs.push(Job::Lists { n: 60, index: i as u64 });
-            }
-            for i in 0..ctx.tier.pick(6, 24) {
-                jobs.push(Job::Long { index: i as u64 });
-            }
-        }
-        Which::C10 => {
-            let mut lo = 0;
-            while lo < literals.len() {
-                jobs.push(Job::Weights { lo, hi: (lo + 150).min(literals.len()) });
-                lo += 150;
-            }
-            let mut lo = 0;
-            while lo < shapes.len() {
-                jobs.push(Job::Shapes { lo, hi: (lo + 600).min(shapes.len()), weights: true });
-                lo += if thorough { 600 } else { 2400 };
-            }
-            for i in 0..ctx.tier.pick(30, 300) {
-                jobs.push(Job::Random { n: 200, index: i as u64 });
-            }
-            for i in 0..ctx.tier.pick(60, 600) {
-                jobs.push(Job::Lists { n: 60, index: i as u64 });
-            }
-            if thorough {
-                for len in 0..=3usize {
-                    let total = 30u64.pow(len as u32);
-                    let mut lo = 0;
-                    while lo < total {
-                        jobs.push(Job::Short { len, lo, hi: (lo + 1500).min(total) });
-                        lo += 1500;
-                    }
-                }
-            }
-        }
-    }
-    let mut order = Rng::derive(ctx.seed, "c09-order", 0);
-    order.shuffle(&mut jobs);
-    let seed = ctx.seed;
-    let results = par_run(
-        jobs.len(),
-        1,
-        |_| (Report::new(), ProbeStats::default()),
-        |(report, stats), j| {
-            let mut probe = Probe { which, report, stats };
-            match &jobs[j] {
+
+struct Tables {
+    shapes: Vec<String>,
+    literals: Vec<String>,
+    tokens: Vec<crate::refmodel::notation::Tok>,
+}
+
+fn run_job(job: &Job, which: Which, seed: u64, t: &Tables, report: &mut Report, stats: &mut ProbeStats) {
+    let shapes = &t.shapes;
+    let literals = &t.literals;
+    let tokens = &t.tokens;
+    let mut probe = Probe { light: cfg!(debug_assertions), which, report, stats };
+            match job {
                 Job::Named => {
                     for s in NAMED {
                         probe.run(s, true);
@@ -580,6 +520,19 @@ pub fn run(ctx: &Ctx, which: Which) -> Report {
                     }
                     probe.report.count("weight_literals_on_every_shape", (*hi - *lo) as u64);
                 }
+                Job::ValidTokens { lo, hi } => {
+                    let mut rng = Rng::derive(seed, "c09-valid", *lo as u64);
+                    let mut list: Vec<String> = Vec::new();
+                    for t in &tokens[*lo..*hi] {
+                        let bare = t.text();
+                        let weighted = format!("{}:{}", bare, literals[rng.usize_below(literals.len())]);
+                        probe.run(&bare, true);
+                        probe.run(&weighted, true);
+                        list.push(if rng.chance(1, 2) { bare } else { weighted });
+                    }
+                    probe.run(&list.join(","), true);
+                    probe.report.count("well_formed_tokens_probed", (*hi - *lo) as u64);
+                }
                 Job::Long { index } => {
                     let mut rng = Rng::derive(seed, "c09-long", *index);
                     let target = if *index == 0 { 8 << 20 } else { 1 + rng.usize_below(64 << 10) };
@@ -604,7 +557,89 @@ pub fn run(ctx: &Ctx, which: Which) -> Report {
                     probe.report.count("long_strings", 1);
                 }
             }
-        },
+}
+
+pub fn run(ctx: &Ctx, which: Which) -> Report {
+    let thorough = ctx.tier == Tier::Thorough;
+    let shapes = shape_strings();
+    let literals = weight_literals();
+    let tokens = all_well_formed_tokens();
+    let mut jobs: Vec<Job> = vec![Job::Named, Job::CardPairs];
+    match which {
+        Which::C09 => {
+            let max_len = if thorough { 4 } else { 3 };
+            for len in 0..=max_len {
+                let total = 30u64.pow(len as u32);
+                let step = 1500;
+                let mut lo = 0;
+                while lo < total {
+                    jobs.push(Job::Short { len, lo, hi: (lo + step).min(total) });
+                    lo += step;
+                }
+            }
+            let mut lo = 0;
+            while lo < shapes.len() {
+                jobs.push(Job::Shapes { lo, hi: (lo + 600).min(shapes.len()), weights: thorough });
+                lo += 600;
+            }
+            let mut lo = 0;
+            while lo < tokens.len() {
+                jobs.push(Job::Multibyte { lo, hi: (lo + 40).min(tokens.len()) });
+                lo += 40;
+            }
+            let mut lo = 0;
+            while lo < tokens.len() {
+                jobs.push(Job::ValidTokens { lo, hi: (lo + 40).min(tokens.len()) });
+                lo += 40;
+            }
+            for i in 0..ctx.tier.pick(60, 600) {
+                jobs.push(Job::Random { n: 200, index: i as u64 });
+            }
+            for i in 0..ctx.tier.pick(40, 400) {
+                jobs.push(Job::Lists { n: 60, index: i as u64 });
+            }
+            for i in 0..ctx.tier.pick(6, 24) {
+                jobs.push(Job::Long { index: i as u64 });
+            }
+        }
+        Which::C10 => {
+            let mut lo = 0;
+            while lo < literals.len() {
+                jobs.push(Job::Weights { lo, hi: (lo + 150).min(literals.len()) });
+                lo += 150;
+            }
+            let mut lo = 0;
+            while lo < shapes.len() {
+                jobs.push(Job::Shapes { lo, hi: (lo + 600).min(shapes.len()), weights: true });
+                lo += if thorough { 600 } else { 2400 };
+            }
+            for i in 0..ctx.tier.pick(30, 300) {
+                jobs.push(Job::Random { n: 200, index: i as u64 });
+            }
+            for i in 0..ctx.tier.pick(60, 600) {
+                jobs.push(Job::Lists { n: 60, index: i as u64 });
+            }
+            if thorough {
+                for len in 0..=3usize {
+                    let total = 30u64.pow(len as u32);
+                    let mut lo = 0;
+                    while lo < total {
+                        jobs.push(Job::Short { len, lo, hi: (lo + 1500).min(total) });
+                        lo += 1500;
+                    }
+                }
+            }
+        }
+    }
+    let mut order = Rng::derive(ctx.seed, "c09-order", 0);
+    order.shuffle(&mut jobs);
+    let seed = ctx.seed;
+    let tables = Tables { shapes, literals, tokens };
+    let results = par_run(
+        jobs.len(),
+        1,
+        |_| (Report::new(), ProbeStats::default()),
+        |(report, stats), j| run_job(&jobs[j], which, seed, &tables, report, stats),
     );
     let mut report = Report::new();
     let mut stats = ProbeStats::default();
@@ -612,6 +647,7 @@ pub fn run(ctx: &Ctx, which: Which) -> Report {
         report.merge(r);
         stats.merge(&s);
     }
+    dev_pass(ctx, which, &mut report);
     report.set("strings_tried", Json::Int(stats.strings as i128));
     report.set("strings_with_multibyte_characters", Json::Int(stats.multibyte_strings as i128));
     report.set("ok_as_rank", Json::Int(stats.ok_rank as i128));
@@ -647,9 +683,82 @@ pub fn run(ctx: &Ctx, which: Which) -> Report {
     report
 }
 
+/// The dev-profile batch (child built with overflow checks and debug assertions): named
+/// strings, all two-card strings, short strings, a slice of the shape strings with weights, multi-byte
+/// replacements, random strings and lists, and every well-formed token bare and weighted. Shard `part`.
+fn dev_batch(which: Which, seed: u64, part: usize, parts: usize) -> Report {
+    let tables = Tables { shapes: shape_strings(), literals: weight_literals(), tokens: all_well_formed_tokens() };
+    let mut jobs: Vec<Job> = vec![Job::Named, Job::CardPairs];
+    for len in 0..=2usize {
+        jobs.push(Job::Short { len, lo: 0, hi: 30u64.pow(len as u32) });
+    }
+    let mut lo = 0;
+    while lo < tables.shapes.len() {
+        jobs.push(Job::Shapes { lo, hi: (lo + 150).min(tables.shapes.len()), weights: true });
+        lo += 150 * 30; // one slice in thirty
+    }
+    let mut lo = 0;
+    while lo < tables.tokens.len() {
+        jobs.push(Job::Multibyte { lo, hi: (lo + 10).min(tables.tokens.len()) });
+        jobs.push(Job::ValidTokens { lo, hi: (lo + 40).min(tables.tokens.len()) });
+        lo += 40;
+    }
+    for i in 0..12 {
+        jobs.push(Job::Random { n: 100, index: 5_000 + i });
+        jobs.push(Job::Lists { n: 40, index: 5_000 + i });
+    }
+    let mut report = Report::new();
+    let mut stats = ProbeStats::default();
+    for (i, job) in jobs.iter().enumerate() {
+        if i % parts == part {
+            run_job(job, which, seed, &tables, &mut report, &mut stats);
+        }
+    }
+    report.count("dev_profile_strings", stats.strings);
+    report
+}
+
+fn dev_pass(ctx: &Ctx, which: Which, report: &mut Report) {
+    use crate::child::{self, ChildOutcome};
+    let exe = match Ctx::exe_for("debug") {
+        Some(e) => e,
+        None => {
+            report.inconclusive("no dev-profile binary available (VERIF_DEBUG_EXE not set)");
+            return;
+        }
+    };
+    let parts = 14usize;
+    let id = if which == Which::C09 { "C09" } else { "C10" };
+    let results = par_run(parts, 1, |_| Report::new(), |r, part| {
+        let case = Json::obj().set("kind", Json::str("dev-batch")).set("seed", Json::Int(ctx.seed as i128)).set("part", Json::Int(part as i128)).set("parts", Json::Int(parts as i128));
+        match child::run_case(&exe, id, &case, 8 << 20, std::time::Duration::from_secs(1200)) {
+            ChildOutcome::Reported(doc) => {
+                let ev = r.evaluations;
+                child::merge_child_report(r, &doc, "debug:");
+                r.evaluations = ev;
+            }
+            ChildOutcome::Crashed { signal, code, stack_overflow, stderr_tail } => r.violate(
+                format!("debug:dev-batch-{}:crash", part),
+                format!("[dev profile] the string batch {} died (signal {:?}, code {:?}, stack overflow {}): {}", part, signal, code, stack_overflow, stderr_tail),
+                case,
+            ),
+            ChildOutcome::Timeout { after_s } => r.inconclusive(format!("dev-profile batch {} timed out after {:.0}s", part, after_s)),
+            ChildOutcome::SpawnFailed(e) => r.inconclusive(format!("dev-profile batch {}: {}", part, e)),
+        }
+    });
+    for r in results {
+        report.merge(r);
+    }
+    child::cleanup_scratch();
+}
+
 pub fn replay(case: &Json, which: Which) -> Report {
     let mut report = Report::new();
     let mut stats = ProbeStats::default();
+    if case.get("kind").and_then(|k| k.as_str()) == Some("dev-batch") {
+        let get = |k: &str| case.get(k).and_then(|v| v.as_i128()).unwrap_or(0);
+        return dev_batch(which, get("seed") as u64, get("part") as usize, (get("parts") as usize).max(1));
+    }
     match case.get("text").and_then(|t| t.as_str()) {
         Some(t) => {
             let mut text = t.to_string();
@@ -659,7 +768,7 @@ pub fn replay(case: &Json, which: Which) -> Report {
                     text.push_str(t);
                 }
             }
-            Probe { which, report: &mut report, stats: &mut stats }.run(&text, true)
+            Probe { light: cfg!(debug_assertions), which, report: &mut report, stats: &mut stats }.run(&text, true)
         }
         None => report.inconclusive("replay case has no text"),
     }
